@@ -62,7 +62,21 @@ def evaluation_values(ctx: Ctx, cb: Func):
         if v is None:
             raise AnalysisError("evaluation call without a variables argument")
         v = X.force_inline(v, cb, effects=True)
-        for conds, leaf in guard_leaves(v, strip_wrappers=False):
+        plain = [(conds, leaf) for conds, leaf in guard_leaves(v, strip_wrappers=False)]
+        if len(plain) > 1 and any(not conds for conds, _l in plain):
+            # alternatives chosen by `if` statements in the callback itself (a completion written in place): the
+            # conditions are those of the statements that define the argument
+            from ..util import gated_values
+
+            argn = call_.args[0] if call_.args else next((k.value for k in call_.keywords if k.arg == "variables"), None)
+            if argn is not None:
+                gated = []
+                for conds, leaf in gated_values(ctx, cb, argn):
+                    for c2, l2 in guard_leaves(X.force_inline(leaf, cb, effects=True), strip_wrappers=False):
+                        gated.append((tuple(conds) + tuple(c2), l2))
+                if gated and {l_ for _c, l_ in gated} >= {l_ for _c, l_ in plain}:
+                    plain = gated
+        for conds, leaf in plain:
             out.append((call_, conds, leaf))
     if not out:
         raise AnalysisError("no evaluation request found in the optimizer callback")
